@@ -25,6 +25,8 @@ type profile struct {
 	valLen                                                   int   // > 0: values of about this length (fills tables faster)
 	tableSize                                                int64 // > 0: fixed BaseTableSize
 	prefixSince                                              bool  // Prefix iterators use SinceTs half of the time
+	batchMax                                                 int   // > 0: WriteBatch calls per batch are 1..batchMax
+	flushAfterBatch                                          bool  // explicit Flush after every WriteBatch
 	finalCompact                                             bool  // flush and compact everything at the end, then scan all versions
 }
 
@@ -221,7 +223,11 @@ func runHistory(c *Ctx, p *profile) (*hist, error) {
 				}
 			}
 		case r < p.wBegin+p.wModify+p.wGet+p.wIter+p.wCommit+p.wDiscard+p.wFlush+p.wCompact+p.wL0L0+p.wDump+p.wSetDiscard+p.wBatch:
-			n := 1 + c.Rng.Intn(12)
+			bm := 12
+			if p.batchMax > 0 {
+				bm = p.batchMax
+			}
+			n := 1 + c.Rng.Intn(bm)
 			kind := 0
 			var bts uint64
 			if p.managed {
@@ -266,6 +272,13 @@ func runHistory(c *Ctx, p *profile) (*hist, error) {
 				calls = append(calls, cl)
 			}
 			nextT = h.batch(nextT, kind, bts, calls)
+			if p.flushAfterBatch {
+				// tiny memtable: keep it from filling up (the implicit rotation of
+				// ensureRoomForWrite is not part of these histories' model)
+				if err := h.flush(); err != nil {
+					return h, err
+				}
+			}
 		default:
 			h.maxVersion()
 		}
